@@ -258,14 +258,14 @@ theorem C14_ers_reports (p : StratParams) (now wall : Time) (cf : Bool) (r : Str
         exact ⟨_, rfl⟩
 
 /-- the order invariant of the canary node scan. -/
-structure ScanInv (c : CanaryScan) : Prop where
+structure CanaryOrderInv (c : CanaryScan) : Prop where
   availNonneg : 0 ≤ c.available
   availReady : c.available ≤ c.ready
   readyCurrent : c.ready ≤ c.current
   currentDesired : c.current ≤ c.desired
 
-theorem scanInv_step (tg : String) (byNode : List (NodeItem × Option Pod)) (c : CanaryScan) (nm : String)
-    (h : ScanInv c) : ScanInv (canaryScanStep tg byNode c nm) := by
+theorem canaryOrderInv_step (tg : String) (byNode : List (NodeItem × Option Pod)) (c : CanaryScan) (nm : String)
+    (h : CanaryOrderInv c) : CanaryOrderInv (canaryScanStep tg byNode c nm) := by
   have h1 := h.availNonneg; have h2 := h.availReady; have h3 := h.readyCurrent; have h4 := h.currentDesired
   unfold canaryScanStep
   simp only []
@@ -281,11 +281,11 @@ theorem scanInv_step (tg : String) (byNode : List (NodeItem × Option Pod)) (c :
         rw [this]
         cases pod.ready <;> (constructor <;> simp <;> omega)
 
-theorem foldl_scanInv (tg : String) (byNode : List (NodeItem × Option Pod)) (ns : List String) (c : CanaryScan)
-    (h : ScanInv c) : ScanInv (ns.foldl (canaryScanStep tg byNode) c) := by
+theorem foldl_canaryOrderInv (tg : String) (byNode : List (NodeItem × Option Pod)) (ns : List String) (c : CanaryScan)
+    (h : CanaryOrderInv c) : CanaryOrderInv (ns.foldl (canaryScanStep tg byNode) c) := by
   induction ns generalizing c with
   | nil => exact h
-  | cons n ns ih => exact ih _ (scanInv_step tg byNode c n h)
+  | cons n ns ih => exact ih _ (canaryOrderInv_step tg byNode c n h)
 
 /-- **3b. Canary role**: the same order, and `desired` is the number of canary nodes. -/
 theorem C14_ers_order_canary (p : StratParams) (now : Time) (r : StratResult) (st : ERSStatus)
@@ -299,7 +299,7 @@ theorem C14_ers_order_canary (p : StratParams) (now : Time) (r : StratResult) (s
     rw [← h] at hst
     simp only [Option.some.injEq] at hst
     rw [← hst]
-    have inv := foldl_scanInv p.ers.templateGeneration p.byNode p.canaryNodes {}
+    have inv := foldl_canaryOrderInv p.ers.templateGeneration p.byNode p.canaryNodes {}
       (by constructor <;> simp)
     exact ⟨inv.availNonneg, inv.availReady, inv.readyCurrent, inv.currentDesired⟩
 
